@@ -218,6 +218,9 @@ func sxAtom(s string) string {
 	return sxStr(s)
 }
 
+// interpPlain as cancelAt: run with vm.Run instead of vm.RunContext (directed programs whose first line is "#plain")
+const interpPlain = -2
+
 // runImpl executes stmt (already parsed) in a fresh environment with the host pool.
 func runImpl(stmt anko.Stmt, cancelAt int) (res interpResult) {
 	h := &hostPool{}
@@ -232,7 +235,14 @@ func runImpl(stmt anko.Stmt, cancelAt int) (res interpResult) {
 			res = interpResult{Status: "panic", Msg: fmt.Sprint(p)}
 		}
 	}()
-	v, err := vm.RunContext(ctx, e, &vm.Options{Debug: false}, stmt)
+	var v interface{}
+	var err error
+	if cancelAt == interpPlain {
+		// the entry point most hosts use: no context, so nothing that could ever be cancelled (ctx.Done() == nil)
+		v, err = vm.Run(e, &vm.Options{Debug: false}, stmt)
+	} else {
+		v, err = vm.RunContext(ctx, e, &vm.Options{Debug: false}, stmt)
+	}
 	res.Polls = ctx.calls
 	res.Trace = strings.Join(h.trace, ";")
 	res.TraceAtCancel = atCancel
